@@ -9,7 +9,7 @@ from .. import core, evalfin, gen, sx, textbook as tb
 THEOREMS = ['C11.rust_esubst_textbook', 'C11.rust_ssubst_textbook', 'C11.py_esubst_textbook', 'C11.py_ssubst_textbook',
             'C11.substE_id_of_fresh', 'C11.substS_id_of_fresh', 'C11.esubst_deferred_on_mv', 'C11.ssubst_deferred_on_mv',
             'C11.inst_simultaneous', 'C11.inst_distrib', 'C11.substitution_lemma_E', 'C11.substitution_lemma_S',
-            'C11.py_esubst_eq_rust', 'C11.inst_compose', 'C11.inst_esubst_commute', 'C11.notation_instantiate']
+            'C11.py_esubst_eq_rust', 'C11.py_ssubst_eq_rust', 'C11.py_inst_eq_rust', 'C11.inst_compose', 'C11.inst_esubst_commute', 'C11.notation_instantiate']
 
 
 def to_npat_s(p):
@@ -43,8 +43,15 @@ def run(rep):
         k = rng.choice('es')
         lines.append(f"{'esubst' if k == 'e' else 'ssubst'} {x} {sx.pat_to_s(q)} {sx.pat_to_s(p)}"); meta.append((k, x, q, p))
     n_subst = len(lines)
-    for _ in range(N):
+    from .. import pymach as pm
+    made = 0
+    while made < N:
         p = gen.gen_pat(rng, rng.choice((1, 2, 3, 4)))
+        # instantiate is compared on patterns the machine can hold (meta-headed, non-redundant substitutions):
+        # on others the Rust "unchanged" shortcut of instantiate_internal is observable and not modelled
+        if not pm.subst_wf(p):
+            continue
+        made += 1
         n = rng.choice((0, 1, 2, 3))
         ids = [rng.choice(gen.IDS) for _ in range(n)]
         plugs = [gen.gen_pat(rng, rng.choice((0, 1, 2))) for _ in range(n)]
